@@ -280,10 +280,12 @@ func (c *Collection) CreateIndex(indexName, columnName string, fn func(r Reader)
 	buffer := commit.NewBuffer(c.Count())
 	reader := commit.NewReader()
 	for chunk := commit.Chunk(0); int(chunk) < chunks; chunk++ {
+		c.slock.Lock(uint(chunk)) // no commit to the chunk between reading and indexing it
 		if column.Snapshot(chunk, buffer) {
 			reader.Seek(buffer)
 			index.Apply(chunk, reader)
 		}
+		c.slock.Unlock(uint(chunk))
 	}
 
 	return nil
@@ -321,10 +323,12 @@ func (c *Collection) CreateSortIndex(indexName, columnName string) error {
 	buffer := commit.NewBuffer(c.Count())
 	reader := commit.NewReader()
 	for chunk := commit.Chunk(0); int(chunk) < chunks; chunk++ {
+		c.slock.Lock(uint(chunk)) // no commit to the chunk between reading and indexing it
 		if column.Snapshot(chunk, buffer) {
 			reader.Seek(buffer)
 			index.Apply(chunk, reader)
 		}
+		c.slock.Unlock(uint(chunk))
 	}
 
 	return nil
